@@ -27,6 +27,8 @@ type MemStore struct {
 	Order   []string
 	Writes  int
 	FailAll bool
+	cache   []*swap.SwapStateMachine // decoded view, valid while cacheAt == Writes (read-only!)
+	cacheAt int
 }
 
 func NewMemStore(w *world.World, node string) *MemStore {
@@ -169,7 +171,7 @@ func (m *messenger) SendMessage(peerId string, message []byte, messageType int) 
 		SwapID string `json:"swap_id"`
 	}
 	_ = json.Unmarshal(message, &probe)
-	m.w.Record(world.Obs{Node: m.node, Inc: m.life.Inc, Kind: "send", Peer: peerId, MsgType: messageType, Payload: string(message), SwapID: probe.SwapID, Effect: true})
+	m.w.Record(world.Obs{Node: m.node, Inc: m.life.Inc, Kind: "send", Peer: peerId, MsgType: messageType, Payload: string(message), SwapID: probe.SwapID, Effect: true, Extra: m.w.LN[m.node].PaySnapshot()})
 	if m.w.Deliver != nil {
 		m.w.Deliver(m.node, peerId, messageType, append([]byte{}, message...))
 	}
